@@ -82,7 +82,7 @@ int _skinny_has_vec256(void)
     uint32_t ebx = 0;
     uint32_t ecx = 0;
     uint32_t edx = 0;
-    __cpuid(7, eax, ebx, ecx, edx);
+    __cpuid_count(7, 0, eax, ebx, ecx, edx);
     detected = (ebx & (1 << 5)) != 0;
 #endif
 #endif
